@@ -62,6 +62,7 @@ impl Prop for C17 {
 
     fn execute(c: &ProgCase, ctx: &mut Ctx) -> Option<Violation> {
         let mut finals = vec![];
+        let mut turns: Vec<((bool, bool), u64, u64, bool)> = vec![];
         for (t, w) in [(false, false), (true, false), (false, true), (true, true)] {
             let mut cc = c.clone();
             cc.tracing = t;
@@ -86,6 +87,7 @@ impl Prop for C17 {
                     }
                     // tracing state at the end may differ by construction (commands); exclude flags: probe has none
                     finals.push(((t, w), final_state(&o), o.capped));
+                    turns.push(((t, w), o.ticks, o.eval_calls, o.capped));
                 }
                 Err(mut v) => {
                     v.detail = format!("[tracing={t} warnings={w}] {}", v.detail);
@@ -100,6 +102,17 @@ impl Prop for C17 {
                     "C17/final-state-differs",
                     format!("config {:?} vs {:?}", f.0, base.0),
                     format!("final probe under {:?}:\n{}\nunder {:?}:\n{}", base.0, base.1, f.0, f.1),
+                ));
+            }
+        }
+        // the number of host calls a session needs is observable behaviour too
+        let tb = turns[0];
+        for t in &turns[1..] {
+            if !t.3 && !tb.3 && (t.1 != tb.1 || t.2 != tb.2) {
+                return Some(Violation::new(
+                    "C17/turn-count-differs",
+                    format!("config {:?} vs {:?}", t.0, tb.0),
+                    format!("the same session took {} ticks / {} evaluating calls under {:?} but {} / {} under {:?}", tb.1, tb.2, tb.0, t.1, t.2, t.0),
                 ));
             }
         }
